@@ -916,11 +916,17 @@ impl Runner {
     }
 
     /// poll handle_backend until no waker fired; one `p` line per poll that showed anything
-    fn settle(&mut self) {
+    async fn settle(&mut self) {
         let mut guard = 0;
-        while self.flag.0.swap(false, Ordering::SeqCst) {
+        loop {
+            // let the runtime turn its time driver (tokio fires timers only when the driver is parked;
+            // without this an Interval catching up on > 128 missed ticks wakes itself forever)
+            tokio::task::yield_now().await;
+            if !self.flag.0.swap(false, Ordering::SeqCst) {
+                break;
+            }
             guard += 1;
-            if guard > 10_000 {
+            if guard > 100_000 {
                 self.out.lines.push(("p !livelock".to_string(), "!".to_string()));
                 break;
             }
@@ -1111,15 +1117,22 @@ impl Runner {
                         }
                         c.release(4);
                     } else {
+                        if c.reqs.pop_front().is_none() {
+                            self.out.byzantine = true;
+                        }
                         c.outbox.push_back(PItem::Err);
                         c.wake_r();
                     }
                 }
             }
             Op::Ierr => {
+                // the reply to the oldest outstanding request arrives undecodable
                 if let Some(c) = conn {
                     let mut c = c.lock().unwrap();
                     if !mode_b {
+                        if c.reqs.pop_front().is_none() {
+                            self.out.byzantine = true;
+                        }
                         c.outbox.push_back(PItem::Err);
                         c.wake_r();
                     }
@@ -1173,7 +1186,7 @@ impl Runner {
             }
         }
         self.out.lines.push((op.text(), obs));
-        self.settle();
+        self.settle().await;
     }
 
     /// the backend falls silent: only the clock moves.  Every task still unanswered afterwards is
@@ -1235,7 +1248,7 @@ fn run_case(cfg: &Cfg, script: &[Op], probe_silence: bool) -> CaseOut {
         .expect("runtime");
     rt.block_on(async {
         let mut r = Runner::new(cfg);
-        r.settle();
+        r.settle().await;
         for op in script {
             r.apply(op).await;
         }
